@@ -60,6 +60,9 @@ pub struct Pkt {
     pub kind: u8,
     pub due: i32,
     pub seq: u64,
+    /// the packet was held back by a delay fate: it arrives after the packets of the same link
+    /// that were sent later and are due in the same round (that is what reordering means)
+    pub late: bool,
 }
 
 #[derive(Default, Clone, Debug)]
@@ -209,6 +212,7 @@ impl SimNet {
         }
         let mut due = self.round + lat;
         let mut copies = 1;
+        let mut late = false;
         match fate {
             None => {}
             Some(Fate::Drop) => {
@@ -222,6 +226,7 @@ impl SimNet {
             Some(Fate::Delay(n)) => {
                 self.stats.delayed += 1;
                 due += n;
+                late = true;
             }
         }
         for _ in 0..copies {
@@ -233,6 +238,7 @@ impl SimNet {
                 kind,
                 due,
                 seq: self.seq,
+                late,
             });
         }
     }
@@ -248,7 +254,7 @@ impl SimNet {
                 i += 1;
             }
         }
-        out.sort_by_key(|p| (p.due, p.from, p.seq));
+        out.sort_by_key(|p| (p.from, p.late && p.due == round, p.due, p.seq));
         let now = ggrs::verif_hooks::now_us();
         let mut res: Vec<(Addr, Message)> = Vec::new();
         // forged packets placed before the authentic ones
